@@ -239,7 +239,8 @@ let gen (line : string) : string =
      ops: c<tok> a client connects (ids 1,2,..), f<cid> client cid closes (its service call ends), P / R pause / resume,
           K<tok> a client connects and the service call for it panics (the worker dies; ServerInner restarts it),
           J<t1>:<t2> the same, and a client connects to t2 while the dead worker's services are still being dropped,
-          E<tok> a client connects while accept() fails with EMFILE (one-shot), +<ms> time passes
+          E<tok> a client connects while accept() fails with EMFILE (one-shot), +<ms> time passes,
+          G (last) graceful stop: held = waited for the connections in progress, idle = none was in progress
    After every op the model settles: Turn, every worker picks up its queue, repeated; printed per op:
      <op>=<cid>@<call>w<worker idx>,...  (connections whose service call started during the op)  /a<in progress per worker index, '.'-separated> *)
 let fields_of line = List.map (fun kv -> match String.index_opt kv '=' with
@@ -279,6 +280,12 @@ let bld_settle lz st =
 let poisoned : int list ref = ref []
 
 let bld_step lz call_of (st, cid) (o : string) : (state * int) * string =
+  if o = "G" then begin
+    (* graceful stop as the last op: waits for the connections in progress (C06); the accept/worker model of this driver only says
+       whether any is in progress *)
+    let busy = List.exists (fun wk -> wk.w_queue <> [] || wk.w_picked <> []) st.ws in
+    ((st, cid), if busy then "G=held" else "G=idle")
+  end else
   let nev = List.length st.trace in
   let rest () = String.sub o 1 (String.length o - 1) in
   let panicked = ref [] in
@@ -391,7 +398,9 @@ let bldgen (line : string) : string =
     add 6 `C;
     if picked <> [] then add 5 `F;
     if has 'c' then (if st.paused then add 4 `R else add 1 `P; if rand 8 = 0 then add 1 (if st.paused then `P else `R));
-    if has 'i' && not backoff && not st.paused && available st.av then add 1 `E;
+    (* not as the first operation: lowering RLIMIT_NOFILE right after start-up can hit a worker thread that is still building its
+       Tokio runtime (which needs descriptors); one served connection later every worker is certainly up *)
+    if has 'i' && not backoff && not st.paused && available st.av && snd !acc > 0 then add 1 `E;
     (* a poisoned connection must be dispatched at once (flag available, not paused, registered) to a live worker: every handle's worker is open *)
     if has 'k' && not backoff && not st.paused && available st.av
        && List.for_all (fun g -> match nth_error st.ws (nat_of_int g) with Some wk -> wk.w_open | None -> false) (List.map int_of_nat st.handles)
@@ -410,6 +419,7 @@ let bldgen (line : string) : string =
   let st = fst !acc in
   if List.exists (fun ls -> ls.l_to <> None) st.lsts then emit "+600";
   if (fst !acc).paused then emit "R";
+  if has 'g' then emit "G";
   Printf.sprintf "W=%d;L=%d;B=%s;S=%s;ops=%s" w l (List.assoc "B" fields) (try List.assoc "S" fields with Not_found -> "a") (String.concat " " (List.rev !out))
 
 
